@@ -189,3 +189,16 @@ PROPS["C18"] = {
              {"name": "solver-asan", "src": "h_dense.c", "variant": "asan", "args": ["--mode", "solver"]}],
     "budget": {"quick": 600, "thorough": 3600},
 }
+
+PROPS["C16"] = {
+    "level": "model_checking",
+    "claim": "every (k,r) with 0<=k<=17, 0<=r<=26 is offered to the codec (each in its own process); for every accepted pair the parity-check matrix is shown to be a d x l product single-parity code (each check has its own repair symbol, each source symbol in exactly two checks, checks 2-colourable into two classes, every cross-class pair shares exactly one source, d*l=k, d+l=r) and the encoder output satisfies every check in both slot modes; the decoder is explored like the other codecs (BFS all orders for n<=9/12, all 2^n received subsets for n<=16/24 via SAS+FINISH, ascending DWS+FINISH and descending DWS): never a wrong symbol, complete after FINISH <=> rank condition on the (verified) matrix, FINISH status consistent, release at every state without leak, and the same under AddressSanitizer",
+    "rule": DEC_RULE, "bounds": {"quick": "structure: all (k,r) in 0..17 x 0..26; BFS n<=9; subsets n<=16", "thorough": "BFS n<=12; subsets all accepted pairs up to n<=24 (2^24 subsets for (16,8))"},
+    "assumptions": DEC_ASSUME + ["decoder completeness is judged against the library's own matrix after its product structure has been verified"],
+    "runs": [{"name": "2d-structure-trk", "src": "h_enc.c", "variant": "trk", "args": ["--mode", "2d"]},
+             {"name": "2d-structure-asan", "src": "h_enc.c", "variant": "asan", "args": ["--mode", "2d"]},
+             {"name": "2d-bfs-trk", "src": "h_codec.c", "variant": "trk", "args": ["--mode", "bfs", "--codecs", "2d", "--cb", "n"]},
+             {"name": "2d-bfs-asan", "src": "h_codec.c", "variant": "asan", "args": ["--mode", "bfs", "--codecs", "2d", "--cb", "n"]},
+             {"name": "2d-subsets-trk", "src": "h_codec.c", "variant": "trk", "args": ["--mode", "subsets", "--codecs", "2d"]}],
+    "budget": {"quick": 600, "thorough": 5400},
+}
